@@ -6,6 +6,15 @@
    a parameter; [load_item] ties the knot over the fuel.  The getters are top-level definitions so that
    Proofs/DecEquivP.v and Proofs/ShapeP.v can state lemmas about each of them. *)
 From AP.Model Require Import Prelude Bytes Vocab Pred Url IriEq CollIri UrlU Nlv Text Equal Coll Dispatch Layout JsonTables JsonLeaf JsonCheck.
+From AP.Model Require Import IriEqU.
+
+(* ItemCollection.Append as the decoder uses it: ItemsEqual over the WIDE model of IRI.Equals (Model/IriEqU.v, all byte
+   strings) - the instance CoG.ic_append iri_equ of Model/Coll.v (= ic_append_u of Model/CollU.v).  Until builder b48 the
+   decoder model appended with the plain-grammar instance: on a list holding two spellings of one URL that only the wide
+   comparison identifies (".../a%41", ".../aA") the code keeps one member, that model kept two (witness in
+   harness/c01rt.go).  On the plain grammar the two instances agree (C14_u_agrees_plain). *)
+Notation ic_append := (CoG.ic_append iri_equ).
+Notation ic_contains := (CoG.ic_contains iri_equ).
 From AP.Model Require XsdRead.
 Open Scope Z_scope.
 
@@ -334,6 +343,9 @@ Definition obj_not_empty (fs : list (fid * fval)) : bool :=
   || match getf F_Source fs with Some (FSource mt c) => negb (match mt with [] => true | _ => false end) || match c with Some _ => true | None => false end | _ => false end
   || set F_StartTime || nn F_Summary || nn F_Tag || nn F_To || set F_Updated || nn F_URL.
 
+(* the fuel of the decoder model: one more than fastjson's MaxDepth *)
+Definition json_dec_fuel : nat := 301.
+
 Section Dec.
   Variable jr_tables : list (bytes * list rstmt).
   Variable layout_of : kind -> list fdecl.
@@ -644,9 +656,12 @@ Section Dec.
     | _ => true
     end.
 
-  (* JSONUnmarshalToItem *)
+  (* JSONUnmarshalToItem.  The recursion of JSONLoadItem over the parsed document has no depth limit of its own; the
+     parser has one (fastjson's MaxDepth, 300: Model/Text.v fj_parse), so no parsed document nests deeper than 300 and
+     the fuel below is never what stops the model (Proofs/DecFuelP.v: with fuel above the nesting of the document the
+     answer is the same for every larger fuel) *)
   Definition unmarshal_core (v : fjv) : option item :=
-    let rec := load_item 64%nat in
+    let rec := load_item json_dec_fuel in
     match v with
     | FArr l => match items_fn rec l with Some acc => Some (IItems false (Some acc)) | None => None end
     | FObj _ => rec v
